@@ -107,4 +107,91 @@ theorem rebuildAttrs_id (a : List (String × PyVal)) : rebuildAttrs id a = a := 
   | nil => rfl
   | cons p t iht => simp only [List.map, rebuildV_id p.2, iht]
 
+/-! ### the order of the unpickled `__dict__` does not change what any name reads -/
+
+theorem c11_lookup_append {α} (k : String) : ∀ (a b : List (String × α)),
+    lookup k (a ++ b) = match lookup k a with | some v => some v | none => lookup k b
+  | [], b => by simp [lookup]
+  | (k', v) :: rest, b => by
+    simp only [List.cons_append, lookup]
+    split
+    · rfl
+    · exact c11_lookup_append k rest b
+
+theorem c11_lookup_filter_keep {α} (p : String → Bool) (k : String) (hk : p k = true) :
+    ∀ l : List (String × α), lookup k (l.filter (fun kv => p kv.1)) = lookup k l
+  | [] => rfl
+  | (k', v) :: rest => by
+    simp only [List.filter]
+    by_cases e : (k == k') = true
+    · have : k = k' := by simpa using e
+      subst this
+      simp only [hk, lookup, e, if_true]
+    · cases hp : p k' with
+      | true => simp only [lookup, e, if_false]; exact c11_lookup_filter_keep p k hk rest
+      | false => simp only [lookup, e, if_false]; exact c11_lookup_filter_keep p k hk rest
+
+theorem c11_lookup_filter_drop {α} (p : String → Bool) (k : String) (hk : p k = false) :
+    ∀ l : List (String × α), lookup k (l.filter (fun kv => p kv.1)) = none
+  | [] => rfl
+  | (k', v) :: rest => by
+    simp only [List.filter]
+    cases hp : p k' with
+    | true =>
+      have e : (k == k') = false := by
+        cases h : (k == k') with
+        | false => rfl
+        | true => have : k = k' := by simpa using h
+                  subst this; rw [hk] at hp; cases hp
+      simp only [lookup, e, Bool.false_eq_true, if_false]
+      exact c11_lookup_filter_drop p k hk rest
+    | false => exact c11_lookup_filter_drop p k hk rest
+
+theorem c11_lookup_fieldsPart (attrs : Attrs) (k : String) : ∀ fs : List String,
+    lookup k (fs.filterMap (fun f => (lookup f attrs).map (fun v => (f, v))))
+      = if fs.contains k then lookup k attrs else none
+  | [] => by simp [lookup]
+  | f :: fs => by
+    have ih := c11_lookup_fieldsPart attrs k fs
+    cases hl : lookup f attrs with
+    | none =>
+      rw [List.filterMap_cons_none (by rw [hl]; rfl), ih]
+      by_cases e : (k == f) = true
+      · have : k = f := by simpa using e
+        subst this
+        simp [hl]
+      · have e' : (k == f) = false := by simpa using e
+        simp only [List.contains_cons, e', Bool.false_or]
+    | some v =>
+      rw [List.filterMap_cons_some (b := (f, v)) (by rw [hl]; rfl)]
+      by_cases e : (k == f) = true
+      · have : k = f := by simpa using e
+        subst this
+        simp [lookup, hl]
+      · have e' : (k == f) = false := by simpa using e
+        simp only [lookup, e', Bool.false_eq_true, if_false, ih, List.contains_cons, Bool.false_or]
+
+/-- reordering does not change what any name reads -/
+theorem lookup_stateOrder (fields : List String) (attrs : Attrs) (k : String) :
+    lookup k (stateOrder fields attrs) = lookup k attrs := by
+  unfold stateOrder
+  rw [c11_lookup_append, c11_lookup_fieldsPart]
+  cases hc : fields.contains k with
+  | true =>
+    simp only [if_true]
+    cases hl : lookup k attrs with
+    | some v => rfl
+    | none => exact c11_lookup_filter_drop (fun n => !fields.contains n) k (by simp only [hc, Bool.not_true]) attrs
+  | false =>
+    simp only [Bool.false_eq_true, if_false]
+    rw [c11_lookup_filter_keep (fun n => !fields.contains n) k (by simp only [hc, Bool.not_false]) attrs]
+
+theorem getA_pickleOrd (d : EqCtx) (fields : List String) (S : SetOrder) (x : Inst) (k : String) :
+    getA d (pickleOrdI fields S x) k = getA d (pickleI S x) k := by
+  unfold getA
+  have h1 : (pickleOrdI fields S x).attrs = stateOrder fields (pickleI S x).attrs := rfl
+  have h2 : (pickleOrdI fields S x).undef = (pickleI S x).undef := rfl
+  have h3 : (pickleOrdI fields S x).nones = (pickleI S x).nones := rfl
+  rw [h1, h2, h3, lookup_stateOrder]
+
 end Typedpy
